@@ -15,7 +15,9 @@ package services
 
 import (
 	"context"
+	"encoding/binary"
 	"fmt"
+	"io"
 	"net"
 
 	"github.com/honeytrap/honeytrap/director"
@@ -54,7 +56,7 @@ func (s *dnsProxy) SetChannel(c pushers.Channel) {
 func (s *dnsProxy) Handle(ctx context.Context, conn net.Conn) error {
 	defer conn.Close()
 
-	buff := [65535]byte{}
+	buff := [2 + 65535]byte{}
 
 	// the server hands over wrapped connections, so the concrete connection type
 	// says nothing: tell datagram from stream by the local address
@@ -103,50 +105,74 @@ func (s *dnsProxy) Handle(ctx context.Context, conn net.Conn) error {
 
 		return err
 	} else if _, ok := conn.LocalAddr().(*net.TCPAddr); ok {
-		n, err := conn.Read(buff[:])
-		if err != nil {
-			return err
+		// over tcp every message is preceded by a two byte length (RFC 1035
+		// 4.2.2) and a connection carries any number of queries
+		var conn2 net.Conn
+
+		for {
+			n, err := readDNSMessage(conn, buff[:])
+			if err == io.EOF {
+				return nil
+			} else if err != nil {
+				return err
+			}
+
+			req := new(dns.Msg)
+			if err := req.Unpack(buff[2:n]); err != nil {
+				return err
+			}
+
+			s.c.Send(event.New(
+				EventOptions,
+				event.Category("dns-proxy"),
+				event.Type("dns"),
+				event.Protocol(conn.RemoteAddr().Network()),
+				event.SourceAddr(conn.RemoteAddr()),
+				event.DestinationAddr(conn.LocalAddr()),
+				event.Custom("dns.id", fmt.Sprintf("%d", req.Id)),
+				event.Custom("dns.opcode", fmt.Sprintf("%d", req.Opcode)),
+				event.Custom("dns.message", fmt.Sprintf("Querying for: %#q", req.Question)),
+				event.Custom("dns.questions", req.Question),
+			))
+
+			if conn2 == nil {
+				if conn2, err = s.d.Dial(conn); err != nil {
+					return err
+				}
+
+				defer conn2.Close()
+			}
+
+			if _, err = conn2.Write(buff[:n]); err != nil {
+				return err
+			}
+
+			if n, err = readDNSMessage(conn2, buff[:]); err != nil {
+				return err
+			}
+
+			if _, err = conn.Write(buff[:n]); err != nil {
+				return err
+			}
 		}
-
-		req := new(dns.Msg)
-		if err := req.Unpack(buff[:n]); err != nil {
-			return err
-		}
-
-		s.c.Send(event.New(
-			EventOptions,
-			event.Category("dns-proxy"),
-			event.Type("dns"),
-			event.Protocol(conn.RemoteAddr().Network()),
-			event.SourceAddr(conn.RemoteAddr()),
-			event.DestinationAddr(conn.LocalAddr()),
-			event.Custom("dns.id", fmt.Sprintf("%d", req.Id)),
-			event.Custom("dns.opcode", fmt.Sprintf("%d", req.Opcode)),
-			event.Custom("dns.message", fmt.Sprintf("Querying for: %#q", req.Question)),
-			event.Custom("dns.questions", req.Question),
-		))
-
-		conn2, err := s.d.Dial(conn)
-		if err != nil {
-			return err
-		}
-
-		defer conn2.Close()
-
-		if _, err = conn2.Write(buff[:n]); err != nil {
-			return err
-		}
-
-		if n, err = conn2.Read(buff[:]); err != nil {
-			return err
-		}
-
-		if _, err = conn.Write(buff[:n]); err != nil {
-			return err
-		}
-
-		return nil
 	} else {
 		return nil
 	}
+}
+
+// readDNSMessage reads one message in tcp framing, length prefix included, into buff.
+func readDNSMessage(r io.Reader, buff []byte) (int, error) {
+	if _, err := io.ReadFull(r, buff[:2]); err != nil {
+		return 0, err
+	}
+
+	n := 2 + int(binary.BigEndian.Uint16(buff[:2]))
+
+	if _, err := io.ReadFull(r, buff[2:n]); err == io.EOF {
+		return 0, io.ErrUnexpectedEOF
+	} else if err != nil {
+		return 0, err
+	}
+
+	return n, nil
 }
